@@ -110,6 +110,15 @@ int main(int argc, char ** argv) {
             Vector q = readVec(c, (size_t) ubQ.rows());
             auto [v, w] = kind == "saw" ? sawtoothInterpolation(q, ubQ, ubV) : LPInterpolation(q, ubQ, ubV);
             o << v << (size_t) w.size(); outVec(o, w);
+        } else if (kind == "ubp") {         // planes points -> bound array   (extractBestUsefulPoints)
+            auto w = readVecs(c, d); size_t d2; auto pts = readVecs(c, d2);
+            auto b = extractBestUsefulPoints(pts.begin(), pts.end(), w.begin(), w.end());
+            o << (size_t) std::distance(pts.begin(), b); outVecs(o, pts, d2);
+        } else if (kind == "fbdd") {        // vecs point plane delta -> index (n = end)   (findBestDeltaDominated)
+            auto l = readVecs(c, d); Vector p = readVec(c, d); Vector plane = readVec(c, d);
+            const double delta = c.nextDouble();
+            auto it = findBestDeltaDominated(p, plane, delta, l.begin(), l.end());
+            o << (size_t) std::distance(l.begin(), it);
         } else throw std::logic_error("unknown case kind " + kind);
     });
 }
